@@ -20,9 +20,15 @@ KINDS = ['split', 'flat', 'multi', 'nested', 'nested', 'payload', 'unsized', 'un
          'targs:unsized_arg', 'targs:default_omitted', 'targs:unsized_where', 'flat', 'multi']
 
 
+def header_slots(b):
+    """slots that occur in the impl header (payload-only parameters are not part of it)"""
+    text = (b.trait_args or '') + ' ' + b.self_ty + ' ' + ' '.join(bd + ' ' + tr for (bd, tr, _, _) in b.bounds)
+    return [s for s in b.slots if '{%s}' % s in text]
+
+
 def canonical_generics(b, relaxed_slots):
     parts = []
-    for slot in sorted(b.slots, key=lambda s: (s[0] != 'L', s)):
+    for slot in sorted(header_slots(b), key=lambda s: (s[0] != 'L', s)):
         kind = b.slots[slot][0]
         nm = 'R' + slot if kind != 'lt' else "'r" + slot.lower()
         if kind == 'lt':
@@ -50,8 +56,8 @@ def reference_program(c):
         fams[('nested',)] = gen + nested
     else:
         for i, b in enumerate(c.blocks):
-            fams.setdefault((b.trait_args, b.self_ty, tuple(sorted(b.slots))), []).append(i)
-    src = gp.PRELUDE + gp.world_text(c.world) + c.extra_world + gp.trait_def(c.trait_name, c.trait_generics, where=getattr(c, 'trait_where', ''))
+            fams.setdefault((b.trait_args, b.self_ty, tuple(sorted(header_slots(b)))), []).append(i)
+    src = gp.PRELUDE + gp.world_text(c.world) + c.extra_world + gp.trait_def(c.trait_name, c.trait_generics, where=getattr(c, 'trait_where', ''), unsafe=getattr(c, 'unsafe_trait', False))
     tparams = c.trait_generics.strip()
     tparams_inner = tparams[1:-1] if tparams else ''
     for fi, (key, members) in enumerate(fams.items()):
@@ -117,7 +123,7 @@ def reference_program(c):
             elif tr == 'Tr0':
                 preds.append('%s: Tr0' % cf(bd))
         preds.append('Self: ' + hb)
-        src += 'impl%s %s%s for %s where %s {\n    const NAME: &\'static str = <Self as %s>::NAME;\n    const ID: u8 = <Self as %s>::ID;\n    fn f() -> &\'static str { <Self as %s>::f() }\n}\n' % (
+        src += ('unsafe ' if getattr(c, 'unsafe_trait', False) else '') + 'impl%s %s%s for %s where %s {\n    const NAME: &\'static str = <Self as %s>::NAME;\n    const ID: u8 = <Self as %s>::ID;\n    fn f() -> &\'static str { <Self as %s>::f() }\n}\n' % (
             canonical_generics(first, relaxed), c.trait_name, ('<%s>' % ', '.join(targs)) if targs else '', cf(first.self_ty), ', '.join(preds), hb, hb, hb)
     lines = []
     for j, (targs, ty) in enumerate(c.probes):
@@ -146,7 +152,7 @@ def split_top(s):
 def run(tier, seed, replay=None):
     rng = random.Random(seed)
     gate = cm.proof_gate(['C03_'])
-    n = 60 if tier == 'quick' else 1500
+    n = 96 if tier == 'quick' else 1600
     if replay:
         rp = json.load(open(replay))
         for k in ('program', 'reference_program'):
@@ -165,7 +171,13 @@ def run(tier, seed, replay=None):
         if not (r['ok'] and r.get('run_ok')):
             violations.append(dict(kind='property', request='corpus/C03/' + f, program=open(os.path.join(cdir, f)).read(), errors=r['errors'][:4],
                                    oracle='a corpus program of a fixed acceptance finding no longer compiles: %s' % r['errors'][:2]))
-    cases = [gp.gen_case(rng, KINDS[i % len(KINDS)]) for i in range(n)]
+    seen, cases = {}, []
+    for i in range(n):
+        k = KINDS[i % len(KINDS)]
+        cases.append(gp.gen_case(rng, k, idx=seen.get(k, 0)))
+        seen[k] = seen.get(k, 0) + 1
+    for i, c in enumerate(cases):
+        c.unsafe_trait = (i % 6 == 5)     # unsafe traits are part of the documented fragment
     refs = [reference_program(c) for c in cases]
     shadow = rc.compile_many([c.shadow_program() for c in cases])
     macro = rc.compile_many([c.macro_program() for c in cases])
